@@ -445,3 +445,26 @@ def merged_paths(interp, f, args, **kw):
         return tuple(Rat.atom(Fn("paths", tuple(v[i] for v in vals))) if len(set(vkey(v[i]) for v in vals)) > 1 else vals[0][i]
                      for i in range(len(vals[0])))
     raise AnalysisError("%s: paths return values of different kinds" % f.fq)
+
+
+def integer_power_hazards(f, array_params):
+    """[(node, text)]: an array parameter raised to an integer literal power >= 3 (or multiplied by itself as often) while
+    still in the caller's dtype.  For integer-typed input (altitudes in metres from numpy.arange, counts) the power wraps
+    around silently (x**5 overflows int64 from 6209, int32 from 74), whereas a float exponent or a prior conversion to float
+    does not.  Conversions recognised: float literals in the same product, numpy.asarray/array(..., dtype=float), astype(float),
+    float(...), true division, x * 1.0."""
+    out = []
+    arr = set(array_params) & set(f.params + f.kwonly)
+    floated = set()
+    for n in ast.walk(f.node):
+        if isinstance(n, ast.Assign) and len(n.targets) == 1 and isinstance(n.targets[0], ast.Name) and n.targets[0].id in arr:
+            txt = norm_text(n.value)
+            if "float" in txt or "/" in txt:
+                floated.add(n.targets[0].id)
+    for n in ast.walk(f.node):
+        if isinstance(n, ast.BinOp) and isinstance(n.op, ast.Pow) and isinstance(n.right, ast.Constant) and \
+                isinstance(n.right.value, int) and not isinstance(n.right.value, bool) and n.right.value >= 3:
+            base = n.left
+            if isinstance(base, ast.Name) and base.id in arr and base.id not in floated:
+                out.append((n, "%s: integer power of the array argument `%s` in its own dtype" % (norm_text(n), base.id)))
+    return out
